@@ -18,21 +18,21 @@ type W struct {
 
 // Profile selects alphabets and the action mix of a state-machine check.
 type Profile struct {
-	Name        string
-	Colls       []string
-	IndexFields []string
-	Doc         gen.DocCfg
-	Weights     []W
-	GenIds      bool // some documents are inserted without _id
-	IdPool      int
-	BadIds      bool // malformed / duplicate / upper-case ids
-	IdRewrite   bool // updates may try to change _id
-	BadDocs     bool // updates may produce invalid documents (_expiresAt non-time)
-	Crit        gen.CritEnv
-	SortFields  []string
-	MaxDocs     int  // soft cap on documents per collection
+	Name         string
+	Colls        []string
+	IndexFields  []string
+	Doc          gen.DocCfg
+	Weights      []W
+	GenIds       bool // some documents are inserted without _id
+	IdPool       int
+	BadIds       bool // malformed / duplicate / upper-case ids
+	IdRewrite    bool // updates may try to change _id
+	BadDocs      bool // updates may produce invalid documents (_expiresAt non-time)
+	Crit         gen.CritEnv
+	SortFields   []string
+	MaxDocs      int  // soft cap on documents per collection
 	NoWindowBulk bool // bulk writes never carry skip/limit
-	MissingColl int  // 1/MissingColl of the operations target a possibly missing collection (0 = alphabet choice only)
+	MissingColl  int  // 1/MissingColl of the operations target a possibly missing collection (0 = alphabet choice only)
 }
 
 func (p *Profile) pickKind(t *rapid.T) string {
@@ -277,6 +277,8 @@ func (p *Profile) Draw(t *rapid.T, s *Session) cs.Op {
 		return cs.Op{Kind: kind, Coll: p.liveColl(t, s)}
 	case "listcolls", "close", "reopen":
 		return cs.Op{Kind: kind}
+	case "storm":
+		return cs.Op{Kind: kind, Coll: p.anyColl(t)}
 	case "insert", "insertone", "save":
 		coll := p.liveColl(t, s)
 		c := s.M.Colls[coll]
